@@ -24,9 +24,11 @@ ScheduleConfigs ==
   \cup
   {[Base EXCEPT !.n = n, !.b = 2, !.e = 2, !.workers = 2, !.hasval = TRUE, !.tol = 3, !.nval = 5, !.chunk = 2] : n \in {2, 3}}
 
+\* `print` (how often learn prints a progress line; 0 = never) is carried along uninterpreted: no action reads it,
+\* i.e. the contract does not depend on it
 EarlyStopConfigs ==
-  {[Base EXCEPT !.e = e, !.hasval = hv, !.tol = t, !.nval = 1, !.chunk = 1, !.vals = 1..NVals] :
-      e \in 1..MaxE, hv \in BOOLEAN, t \in 1..MaxTol}
+  {[Base EXCEPT !.e = e, !.hasval = hv, !.tol = t, !.nval = 1, !.chunk = 1, !.vals = 1..NVals] @@ [print |-> pr] :
+      e \in 1..MaxE, hv \in BOOLEAN, t \in 1..MaxTol, pr \in {0, 2, 3}}
 
 \* A layer sequence over the five kinds; a final dense output layer is always appended.
 \* Which positions own a training flag: every dense/conv/deconv layer; a feedback block ("fb": one inner layer,
@@ -56,6 +58,7 @@ Emit ==
     PrintT("REPLAY " \o ToJson([group |-> "training", mode |-> Mode,
                                 p |-> [n |-> P.n, b |-> P.b, e |-> P.e, hasval |-> P.hasval, tol |-> P.tol,
                                        nval |-> P.nval, flagged |-> P.flagged, workers |-> P.workers,
-                                       kinds |-> IF Mode = "flags" THEN P.kinds ELSE <<>>],
+                                       kinds |-> IF Mode = "flags" THEN P.kinds ELSE <<>>,
+                                       print |-> IF Mode = "earlystop" THEN P.print ELSE 0],
                                 updates |-> w, train |-> trainLoss, val |-> valLoss, ran |-> Len(trainLoss)]))
 =============================================================================
